@@ -217,14 +217,20 @@ class LocMap:
                 # when offset is defined (even if it is zero), null slice is not sufficiently specific; need to convert to an explicit slice relative to the offset
                 return slice(offset, len(positions) + offset) #type: ignore
             try:
-                return slice(*cls.map_slice_args(
+                start, stop, step = cls.map_slice_args(
                         label_to_pos.get, #type: ignore
                         key,
                         labels,
                         offset)
-                        )
             except LocEmpty:
                 return EMPTY_SLICE
+            if offset_apply and (step is None or step > 0):
+                # an open end is relative to this index's own extent, not to the whole hierarchy
+                if start is None:
+                    start = offset
+                if stop is None:
+                    stop = len(positions) + offset #type: ignore
+            return slice(start, stop, step)
 
         if isinstance(key, np.datetime64):
             # convert this to the target representation, do a Boolean selection
